@@ -397,7 +397,7 @@ pub fn step_strategy(cfg: &Cfg, p: Profile) -> BoxedStrategy<Step> {
             8,
             (sk(), 0u8..3, 0..clients, 0..slots, proptest::option::weighted(0.5, 0..slots)).prop_map(|(kind, mode, target, refslot, refslot2)| Step::EmitS { kind, mode, target, refslot, refslot2 }).boxed(),
         ));
-        v.push((5, (0..clients, ck(), 0..slots).prop_map(|(client, kind, refslot)| Step::EmitC { client, kind, refslot }).boxed()));
+        v.push((5, (0..clients, ck(), 0..slots, proptest::option::weighted(0.5, 0..slots)).prop_map(|(client, kind, refslot, refslot2)| Step::EmitC { client, kind, refslot, refslot2 }).boxed()));
         v.push((10, (0..clients, any::<u16>(), any::<u16>()).prop_map(|(client, chan, idx)| Step::DeliverSEv { client, chan, idx }).boxed()));
         v.push((1, (0..clients, any::<u16>(), any::<u16>()).prop_map(|(client, chan, idx)| Step::DropSEv { client, chan, idx }).boxed()));
         v.push((7, (0..clients, any::<u16>(), any::<u16>()).prop_map(|(client, chan, idx)| Step::DeliverCEv { client, chan, idx }).boxed()));
